@@ -24,7 +24,7 @@ TraceInit == l = 1 /\ InitWith("inline", "inline")
 Reset == /\ lR' = [r \in Routers |-> AbsentR] /\ sR' = [r \in Routers |-> AbsentR]
          /\ lC' = [c \in Clusters |-> AbsentC] /\ sC' = [c \in Clusters |-> AbsentC]
          /\ lL' = [n \in Listeners |-> AbsentL] /\ sL' = [n \in Listeners |-> AbsentL]
-         /\ cDir' = NoFiles /\ rDir' = [r \in Routers |-> NoFiles]
+         /\ cDir' = NoFiles /\ rDir' = [r \in Routers |-> NoFiles] /\ rInl' = {}
          /\ err' = FALSE /\ pre' = pre /\ hist' = hist
 
 (* new{cm, rm}: storage mode of the dumped clusters / routers in this history *)
@@ -50,6 +50,7 @@ Apply(e) ==
 
 TOp == /\ IsEvent("op")
        /\ Apply(Ev)
+       /\ InlStep(Ev.kind, IF Ev.kind = "routers" THEN Ev.r ELSE "-", IF Ev.kind = "routers" /\ Has(Ev, "path") THEN Ev.path ELSE TRUE)
        /\ Dump               \* the driver dumps the effective configuration after every operation
        /\ Expect(~Has(Ev, "panic"), "operation-panicked")
        /\ Expect(Ev.err = err', "error-result")
